@@ -6,3 +6,4 @@ import PasskeyVerif.Props.C12
 import PasskeyVerif.Props.C13
 import PasskeyVerif.Props.C04
 import PasskeyVerif.Props.C05
+import PasskeyVerif.Props.C08
